@@ -1206,6 +1206,15 @@ func (s *supervisor) conclude(total BatchResult, t0 time.Time, writeEvidence boo
 	outDir := filepath.Join(root, "replays", s.id)
 	for _, cl := range classes {
 		cl := cl
+		if strings.HasPrefix(cl, "panic:harness") {
+			// a panic with no goalign function on its stack is a defect of this machinery, not of goalign
+			mu.Lock()
+			if machinery == "" {
+				machinery = fmt.Sprintf("the harness itself panicked (run %d, replay %s):\n%s", byClass[cl][0].Index, byClass[cl][0].Replay, tail(byClass[cl][0].Detail, 1500))
+			}
+			mu.Unlock()
+			continue
+		}
 		wg.Add(1)
 		go func() {
 			defer wg.Done()
